@@ -616,6 +616,16 @@ func (in *Interp) registerIntrinsics() {
 	I["strings.LastIndexByte"] = func(in *Interp, p *Path, fr *Frame, a []Val, s ssa.CallInstruction) Val {
 		return p.strLastIndex(a[0].(StringVal), StringVal{b: []*Term{asTerm(a[1])}, n: mkInt(1)})
 	}
+	I["internal/bytealg.CountString"] = func(in *Interp, p *Path, fr *Frame, a []Val, s ssa.CallInstruction) Val {
+		x := a[0].(StringVal)
+		c := asTerm(a[1])
+		r := mkInt(0)
+		for i, b := range x.b {
+			hit := p.and(p.bvCmp("bvult", mkInt(int64(i)), x.n), p.bvCmp("=", b, c))
+			r = p.bvBin("bvadd", r, p.ite(hit, mkInt(1), mkInt(0)))
+		}
+		return r
+	}
 	I["internal/bytealg.IndexByteString"] = I["strings.IndexByte"]
 	I["internal/bytealg.IndexString"] = I["strings.Index"]
 	I["internal/stringslite.HasPrefix"] = I["strings.HasPrefix"]
